@@ -69,6 +69,31 @@ def nonconstant_repetition_cases():
     return out
 
 
+def crossed_register_names():
+    """A child that calls its first register's size M and its second N, fed N into the first and M into the second by its parent,
+    with an output size and ancillae written over both: the same letter means different things at the two levels, and the cut
+    sizes are what they are under the child's reading."""
+    def node(name, params=(), ports=(), conns=(), kids=(), links=(), res=()):
+        return {"name": name, "type": None, "input_params": list(params), "local_variables": [], "linked_params": [list(l) for l in links],
+                "ports": list(ports), "resources": list(res), "connections": [list(c) for c in conns], "repetition": None, "children": list(kids)}
+
+    def port(n, d, size):
+        return {"name": n, "direction": d, "size": size}
+    out = []
+    for a, b in (("M", "N"), ("N", "M"), ("M", "K")):
+        for outsize, anc in ((E.op("add", E.op("mul", E.num(2), E.sym(a)), E.sym(b)), E.sym(a)),
+                             (E.op("add", E.sym(a), E.sym(b)), E.op("mul", E.num(2), E.sym(b))),
+                             (E.op("mul", E.sym(a), E.sym(b)), E.op("add", E.sym(a), E.num(1)))):
+            merge = node("merge", ports=[port("in_0", "input", E.sym(a)), port("in_1", "input", E.sym(b)), port("out_0", "output", outsize)],
+                         res=[{"name": "local_ancillae", "type": "qubits", "value": anc}])
+            tail = node("tail", ports=[port("in_0", "input", E.sym("W")), port("out_0", "output", E.sym("W"))],
+                        res=[{"name": "local_ancillae", "type": "qubits", "value": E.num(3)}])
+            root = node("root", params=["N", "M"], ports=[port("in_0", "input", E.sym("N")), port("in_1", "input", E.sym("M")), port("out_0", "output", None)],
+                        conns=[["in_0", "merge.in_0"], ["in_1", "merge.in_1"], ["merge.out_0", "tail.in_0"], ["tail.out_0", "out_0"]], kids=[merge, tail])
+            out.append({"routine": root, "n_eval": 3, "eval_seed": 5, "native": False})
+    return out
+
+
 def emit(pairs):
     lines = [lib.CASE_HEADER.format(imports="RepModel Routine Compile CompileTop Highwater Checks", gen_imports="")]
     items = []
@@ -129,7 +154,7 @@ def mk_stream(cases):
 def streams(tier, seed):
     rng = lib.Rng(f"C16-{seed}")
     n = 150 if tier == "quick" else 2500
-    return [mk_stream(lib.load_corpus(PROP, "hier-highwater") + nonconstant_repetition_cases() + gen_cases(rng, n, 3 if tier == "quick" else 4))]
+    return [mk_stream(lib.load_corpus(PROP, "hier-highwater") + nonconstant_repetition_cases() + crossed_register_names() + gen_cases(rng, n, 3 if tier == "quick" else 4))]
 
 
 def replay_streams(payload):
